@@ -1,5 +1,6 @@
 import Kopf.Drv.Json
 import Kopf.Model.C02_Cycle
+import Kopf.Model.C02_Nested
 open Lean
 namespace Kopf.Drv.C02
 open Kopf.C02
@@ -75,11 +76,24 @@ def handle : DrvHandler := fun op args =>
         | .ok v => jStrList? v
         | .error _ => some []
       let c := cycleB cfg (fun i => boundL.contains i) P now now1 exec
+      -- the resumed filter (optional: `raw` = the registry's selection, `initial` = its resuming handlers,
+      -- `resumed` = memory.resumed_handlers before the pass)
+      let optList (k : String) : Option (List String) := match j.getObjVal? k with
+        | .ok v => jStrList? v
+        | .error _ => some []
+      let rawL ← optList "raw"
+      let initialL ← optList "initial"
+      let resumedL ← optList "resumed"
+      let initial : Id → Bool := fun i => initialL.contains i
+      let selR := selectResumed rawL initial resumedL
+      let resA := resumedAfter initial resumedL (cycleFinalsB cfg (fun i => boundL.contains i) P now exec) c.closed
       some (ok (Json.mkObj [
         ("invoked", .arr (c.invoked.map (fun (i, n) => Json.arr #[.str i, .num (JsonNumber.fromNat n)])).toArray),
         ("P", Json.mkObj (univ.map (fun i => (i, match c.P' i with | some r => recJson r | none => .null)))),
         ("closed", .bool c.closed),
-        ("delays", .arr (c.delays.map (fun d => Json.num (JsonNumber.fromInt d))).toArray)]))
+        ("delays", .arr (c.delays.map (fun d => Json.num (JsonNumber.fromInt d))).toArray),
+        ("selectedR", .arr (selR.map Json.str).toArray),
+        ("resumedAfter", .arr (resA.map Json.str).toArray)]))
   | "C02.subpass", [j] => do
       let owned ← jStrList? (← jField? j "owned")
       let selected ← jStrList? (← jField? j "selected")
@@ -99,7 +113,7 @@ def handle : DrvHandler := fun op args =>
       let P : Store := lookupD pL
       let missing : Outcome := { final := false, delay := some (-1), error := true, subrefs := ["<no-outcome>"] }
       let exec : Id → Nat → Outcome := fun i _ => (lookupD oL i).getD missing
-      let c := subPass cfg P now now1 exec
+      let c := subPassN cfg P now now1 exec
       some (ok (Json.mkObj [
         ("invoked", .arr (c.invoked.map (fun (i, n) => Json.arr #[.str i, .num (JsonNumber.fromNat n)])).toArray),
         ("P", Json.mkObj (univ.map (fun i => (i, match c.P' i with | some r => recJson r | none => .null)))),
